@@ -29,9 +29,11 @@ SPEC = {
     "stage_hook": stage_hook,
     "level_text": "Theorems (Coq, all fault scripts with the real dial(): initial sysctl value, mode, outcome of lookup / check / open / get / set-false in every dial, task results, leave / close / restore answers, cancellation points, select races): every trace of the model is accepted by the C11 acceptor written from the property text (C11_monitor_accepts) -- a connection is opened only when none is open and autoconf is back, closed exactly once before the next is opened or Dial returns, nothing is left open by a failed dial; while an advertising connection is handed out the sysctl is false unless the write was denied; whenever nothing is held it equals its initial value unless a set/restore call failed; every restore writes the value read by that dial; permission / not-exist on restore are tolerated and any other restore error makes done() fail (Dial then returns it); a monitor never touches the sysctl. Direct corollaries: cleaned = opened in the same order and cleaned before the next open (C11_once, also for every accepted log: C11_once_of_accepted), C11_tolerated, C11_restore_value, C11_monitor_mode. The same acceptor is evaluated on the call logs of the real Dial + dial() + setAutoconf + done closure, run against a recording State and fake connections through an identifier seam applied to the staged copy only.",
     "level_note": "Trusted: Coq kernel + vm_compute; the stage_hook (renames three call sites inside Dialer.dial in the staged copy; raises when they are not found exactly once); the recording State / fake connection; go1.26.8 testing/synctest.  The real lookupInterface / checkInterface / dialNDP (raw socket, ICMPv6 filter, multicast join) are outside: their outcomes are inputs.  A failed sysctl write is assumed to leave the value unchanged.",
-    "drivers": [{"pkg": "internal/system", "test": "TestVerifC11", "newgo": True, "timeout": 1500}],
-    "rule": "stream exhaustive: as C10dial, over mode {advertise, monitor} x initial autoconf {true, false} x real dial outcomes (all ok, set denied, lookup not-ready, open syscall error, get error, set other error, set not-exist with failing leave/close; thorough adds lookup other, check not-ready / syscall, open permission, get permission / not-exist) x task results {nil, link change, syscall, permission, canceled} x restore answers {ok, permission, not-exist, other} x failing leave/close x cancellation points, depth 4 (quick) / 6 (thorough) dial + task entries (= 2 / 3+ re-dials). stream random: long scripts as C10dial with real dials. Non-trivial: more than 6 observed calls; distinct by script.",
-    "nontrivial": lambda c: len(c.get("observed") or []) > 6,
+    "drivers": [{"pkg": "internal/system", "test": "TestVerifC11", "newgo": True, "timeout": 1500},
+                # the real operating-system State: error classes for a vanished interface, agreement with the sysctl files
+                {"pkg": "internal/system", "test": "TestVerifState", "newgo": True, "timeout": 600}],
+    "rule": "stream exhaustive: as C10dial, over mode {advertise, monitor} x initial autoconf {true, false} x real dial outcomes (all ok, set denied, lookup not-ready, open syscall error, get error, set other error, set not-exist with failing leave/close; thorough adds lookup other, check not-ready / syscall, open permission, get permission / not-exist) x task results {nil, link change, syscall, permission, canceled} x restore answers {ok, permission, not-exist, other} x failing leave/close x cancellation points, depth 4 (quick) / 6 (thorough) dial + task entries (= 2 / 3+ re-dials). stream random: long scripts as C10dial with real dials. stream state: the real NewState() of this host -- every State call on an interface that does not exist must return an error matching os.ErrNotExist (the class Dialer.setAutoconf tolerates on restore), reads agree with the sysctl files, concurrent reads of different files never mix. Non-trivial: more than 6 observed calls; distinct by script.",
+    "nontrivial": lambda c: c.get("_driver") == "TestVerifState" or len(c.get("observed") or []) > 6,
     "trusted": ["props/C11.py stage_hook: in the staged internal/system/dialer.go only, `lookupInterface(`, `checkInterface(`, `dialNDP(` inside Dialer.dial become package variables (zz_verif_seam.go) that default to the real functions",
                 "the fake State returns the current simulated sysctl value on a successful read and changes it only on a successful write"],
     "assumptions": ["the sysctl is changed by nobody else while CoreRAD runs",
